@@ -183,8 +183,45 @@ class Check(PropertyCheck):
                                      {"got": [C.attrs["width"], C.attrs["height"]], "want": [str(w), str(h)]}))
         return fails
 
+    @staticmethod
+    def page(n):
+        """a page of two-letter words with exactly `n` non-blank cells (40 per row)"""
+        rows, left = [], n
+        while left > 0:
+            k = min(40, left)
+            words = ["ab"] * (k // 2) + (["a"] if k % 2 else [])
+            rows.append(" ".join(words))
+            left -= k
+        return "\n".join(rows)
+
+    def page_sweeps(self):
+        """a drawing below a page whose number of non-blank cells sweeps a window around a power of two (block sizes, run
+        lengths, look-back windows and pool sizes of a grouping stage sit there): the page must not change the drawing"""
+        shapes = ["|   |\n|   |\n+---+\n  |\n  |\n  |",                 # tuning fork: two prongs, a stem
+                  "|\n|\n+---+\n|   |\n|   |",                          # h
+                  "| | | |\n| | | |\n+-+-+-+\n|\n|",                     # comb on a stem
+                  "+--+  +--+\n|  |  |  |\n|  +--+  |\n|        |\n+--------+",  # a box with a notch
+                  "  ^\n  |\n--+--\n  |\n  v",                           # cross with arrow heads
+                  "\\   /\n \\ /\n  +\n  |\n  |"]                     # Y
+        out = []
+        powers = [1024, 2048, 4096] if self.tier == "quick" else [512, 1024, 2048, 4096, 8192]
+        forks = ["|   |\n|   |\n+---+\n|\n|\n|", "|   |\n|   |\n+---+\n    |\n    |\n    |",
+                 "|\n|\n+---+\n|   |\n|   |", "    |\n    |\n+---+\n|   |\n|   |"]
+        for p2 in powers:
+            for d in range(-14, 2):
+                out.append((self.page(p2 + d), forks[(d + 14) % len(forks)], 2, "stack"))
+                out.append((self.page(p2 + d), self.rng.choice(shapes + forks), self.rng.range(1, 2), "stack"))
+                # a dense random grid of strokes: one connected piece whose cells are gathered in an order of its own
+                w, h = self.rng.range(4, 7), self.rng.range(4, 7)
+                grid = ["".join(self.rng.choice("-|+") if self.rng.below(100) < 75 else " " for _ in range(w)).rstrip()
+                        for _ in range(h)]
+                if grid[0].strip():
+                    out.append((self.page(p2 + d), "\n".join(grid), self.rng.range(1, 2), "stack"))
+        self.count("page_sweep_cases", len(out))
+        return out
+
     def search(self, boost=1):
-        return self.oracle(self.combos(self.scale(600, 10000) * boost))
+        return self.oracle(self.combos(self.scale(600, 10000) * boost) + self.page_sweeps())
 
     def replay_case(self, case):
         return self.oracle([(case["a"], case["b"], case["gap"], case["mode"])])
